@@ -309,3 +309,39 @@ def find_loops(m: str, body_open: int, body_end: int):
             continue
         res.append((mm.start(), ob))
     return res
+
+
+CLOSURE_RE = re.compile(r'(?<=[(,=])\s*(move\s+)?\|([^|{}();]*)\|')
+
+
+def find_closures(m: str, body_open: int, body_end: int):
+    """Closures in argument/initialiser position inside a fn body, textual order.
+    Returns (start_of_first_bar, end_after_second_bar, end_of_body_expression)."""
+    res = []
+    for mm in CLOSURE_RE.finditer(m, body_open, body_end):
+        start = mm.start() + (len(mm.group(0)) - len(mm.group(0).lstrip()))
+        bar_end = mm.end()
+        # body: until ',' or ')' / ']' / '}' / ';' at relative depth 0; or a matched block
+        k = bar_end
+        while k < body_end and m[k] in " \n\t":
+            k += 1
+        if m[k] == "{":
+            end = match_brace(m, k)
+        else:
+            d = 0
+            while k < body_end:
+                ch = m[k]
+                if ch in "([{":
+                    d += 1
+                elif ch in ")]}":
+                    if d == 0:
+                        break
+                    d -= 1
+                elif ch in ",;" and d == 0:
+                    break
+                k += 1
+            end = k
+            while m[end - 1] in " \n\t":
+                end -= 1
+        res.append((start, bar_end, end))
+    return res
